@@ -123,6 +123,82 @@ func %s() {
 `, name, m.fn, name, m.n, q1, h1, opts, m.call, f2, m.call)
 		fam.Instances = append(fam.Instances, Instance{Func: name, Stratum: m.fn, Desc: "result map after two calls of " + m.fn, Expect: []string{"first call", "second call"}})
 	}
+	// a rule that sets the stop tag and returns still gets its entry (all four stop-tag entry points)
+	for _, d := range []struct{ id, call string }{
+		{"StopTag", "eng.ExecuteWithStopTagDirect(rb, true, stag)"},
+		{"SelectedStopTag", "eng.ExecuteSelectedRulesWithControlAndStopTag(rb, true, stag, []string{\"r0\", \"r1\"})"},
+		{"SelectedStopTagAsGiven", "eng.ExecuteSelectedRulesWithControlAndStopTagAsGivenSortedName(rb, true, stag, []string{\"r1\", \"r0\"})"},
+		{"MixStopTag", "eng.ExecuteMixModelWithStopTagDirect(rb, stag)"},
+	} {
+		name := "T_" + d.id
+		fmt.Fprintf(&b, `
+// %s: rules that set the stop tag and return
+func %s() {
+	n := 2
+	s := fixedSal(n)
+	dc := newDC(nil)
+	g, t, v := symFlags("g", n), symFlags("t", n), symVals("v", n)
+	addFlags(dc, "g", g)
+	addFlags(dc, "t", t)
+	addFlags(dc, "f", allFalse(n))
+	addVals(dc, "v", v)
+	stag := &engine.Stag{}
+	dc.Add("stag", stag)
+	rb := buildText(dc, rulesTextOpt(n, s, "tg"))
+	eng := engine.NewGengine()
+	base := countsOf(n)
+	err := %s
+	_ = err
+	vnd.Event("ret")
+	res, _ := eng.GetRulesResultMap()
+	vnd.RequireJoined("ret")
+	vnd.StopIfViolated()
+	vnd.Reach("first call")
+	vnd.Reach("second call")
+	checkResult(res, n, base, g, allFalse(n), allFalse(n), allFalse(n), v)
+}
+`, d.id, name, d.call)
+		fam.Instances = append(fam.Instances, Instance{Func: name, Stratum: "stop-tag:" + d.id, Desc: d.id + ": a rule sets the stop tag and returns", Expect: []string{"first call"}})
+	}
+	b.WriteString(`
+// break and continue inside loops do not count as returns: the entry holds what the later return yields
+func H_break_continue_then_return() {
+	dc := newDC(nil)
+	k := vnd.Int64("k")
+	vnd.Assume(vnd.And(k >= 0, k <= 3))
+	dc.Add("k", k)
+	dc.Add("arr", []int64{1, 2, 3})
+	rb := buildText(dc, "rule \"brk\" salience 9 begin\n for i = 0; i < 3; i += 1 {\n  if i == k {\n   break\n  }\n }\n return 7\nend\nrule \"cnt\" salience 8 begin\n n = 0\n forRange q := arr {\n  if q == k {\n   continue\n  }\n  n += 1\n }\n return n\nend\nrule \"only\" salience 7 begin\n forRange q := arr {\n  break\n }\nend\n")
+	for model := 0; model < 3; model++ {
+		eng := engine.NewGengine()
+		var err error
+		switch model {
+		case 0:
+			err = eng.Execute(rb, true)
+		case 1:
+			err = eng.ExecuteConcurrent(rb)
+		default:
+			err = eng.ExecuteSelectedRules(rb, []string{"only", "cnt", "brk"})
+		}
+		res, _ := eng.GetRulesResultMap()
+		vnd.Assert(err == nil, "the rules succeed")
+		x, ok := res["brk"].(int64)
+		vnd.Assert(ok && x == 7, "a rule that left a loop through break returns what its return statement yields")
+		y, ok2 := res["cnt"].(int64)
+		want := int64(3) // forRange yields the indices 0, 1, 2
+		if k >= 0 && k <= 2 {
+			want = 2
+		}
+		vnd.Assert(ok2 && y == want, "a rule that used continue returns what its return statement yields")
+		_, has := res["only"]
+		vnd.Assert(!has, "a rule that only breaks out of a loop has no entry")
+		vnd.Assert(len(res) == 2, "no foreign or stale entries")
+	}
+	vnd.Reach("first call")
+	vnd.Reach("second call")
+}
+`)
+	fam.Instances = append(fam.Instances, Instance{Func: "H_break_continue_then_return", Stratum: "nested:break-continue", Desc: "break / continue before a return", Expect: []string{"first call"}})
 	// selected entry points with an unknown name in front of a single existing one (and of two)
 	for _, m := range engineModels() {
 		if !strings.Contains(m.call, namesLit(2)) && !strings.Contains(m.call, namesLit(3)) {
